@@ -73,14 +73,20 @@ Lib ==
                   For("i", "ys", << El("F", <<>>) >>) >>],
      \* c10: text-only component (no root element at all)
      [data |-> << Data("cid", "id", "", "", "") >>,
-      tpl  |-> << Var("cid"), T("L11") >>]
+      tpl  |-> << Var("cid"), T("L11") >>],
+     \* ---- C03 probe: prints every name a caller might leak into it (loop variable, forloop,
+     \* with-bindings, page variables) and renders a slot whose default reads them too
+     [data |-> << Data("z", "const", "c11z", "", "") >>,
+      tpl  |-> << Var("w"), Var("i"), Var("y"), [t |-> "fld", x |-> "forloop", f |-> "counter"], Var("z"),
+                  Slot("a", TRUE, FALSE, <<>>, << Var("w"), Var("x") >>) >>]
   >>
 
 Ctx == << <<"x", Str("px")>>, <<"y", Str("py")>>, <<"xs", [k |-> "l", v |-> <<"i1", "i2">>]>>,
           <<"on", Str("1")>>, <<"off", Str("")>> >>
 
 \* which components the page may use
-CompSet == CASE Alphabet = "provide" -> {2, 4, 5} [] Alphabet = "elems" -> {6, 7, 8, 9} [] OTHER -> {1, 2, 3, 5}
+CompSet == CASE Alphabet = "provide" -> {2, 4, 5} [] Alphabet = "elems" -> {6, 7, 8, 9}
+             [] Alphabet = "scope" -> {1, 2, 3, 11} [] OTHER -> {1, 2, 3, 5}
 
 \* ---- page construction ----------------------------------------------------
 VARIABLES stack, n
@@ -92,7 +98,8 @@ Root == [t |-> "root"]
 LeafTokens ==
   {T("t"), Var("x")} \cup {Comp(c, <<>>, FALSE, "none", <<>>) : c \in CompSet} \cup
   (CASE Alphabet = "slots" -> {[t |-> "fld", x |-> "sd", f |-> "k"], [t |-> "defref", x |-> "df"]}
-     [] Alphabet = "scope" -> {Var("i"), Var("w"), Var("y"), Comp(2, << <<"x", V("i")>> >>, TRUE, "none", <<>>)}
+     [] Alphabet = "scope" -> {Var("i"), Var("w"), Var("y"), Comp(2, << <<"x", V("i")>> >>, TRUE, "none", <<>>),
+                               Comp(11, <<>>, TRUE, "none", <<>>)}
      [] Alphabet = "provide" -> {}
      [] Alphabet = "elems" -> {El("x", <<>>)})
 OpenTokens ==
